@@ -16,20 +16,33 @@ structure Question where
   /-- spelling variant of the name (0 = the canonical lower-case spelling) -/
   spell : Nat
   qtype : Nat
+  /-- DNS class (1 = IN, 3 = CH, 255 = ANY, …) -/
+  qclass : Nat
   deriving DecidableEq, Repr, Inhabited
 
-/-- the same question up to the case of the name (what `cacheKey` and fix b94e062 compare) -/
-def Question.same (a b : Question) : Bool := a.name == b.name && a.qtype == b.qtype
+/-- what makes two questions the same question: name (case-insensitively), type and class -/
+def Question.ident (a : Question) : Nat × Nat × Nat := (a.name, a.qtype, a.qclass)
+
+/-- the same question up to the case of the name (what `dnsResponseAnswersRequest`, fix b94e062, and -
+since fix 4150de7 - the cache and singleflight keys compare) -/
+def Question.same (a b : Question) : Bool := a.ident == b.ident
 
 /-- the spelling the cache stores and serves (`prepackResponseBeforeStore(fqdn lower-cased, …)`) -/
 def Question.canon (a : Question) : Question := { a with spell := 0 }
 
-/-- `responseCacheKey`: canonical name, type, routing scope -/
+/-- `responseCacheKey` over `questionCacheKey`: canonical name, type, class (a non-IN class is spelt
+`#<class>` in the key, fix 4150de7), routing scope -/
 structure Key where
   name : Nat
   qtype : Nat
+  qclass : Nat
   scope : Nat
   deriving DecidableEq, Repr, Inhabited
+
+def Key.ident (k : Key) : Nat × Nat × Nat := (k.name, k.qtype, k.qclass)
+
+/-- class IN -/
+def classIN : Nat := 1
 
 inductive Route where
   | forward
@@ -48,7 +61,7 @@ structure Client where
   route : Route
   deriving DecidableEq, Repr
 
-def Client.key (c : Client) : Key := ⟨c.q.name, c.q.qtype, c.scope⟩
+def Client.key (c : Client) : Key := ⟨c.q.name, c.q.qtype, c.q.qclass, c.scope⟩
 
 /-- a message as an upstream may send it (anything at all) -/
 structure UpMsg where
@@ -209,7 +222,9 @@ def dialSend (cfg : Cfg) (c : Client) (sch : Scheme) (a1 a2 : Att) (cache : List
       -- REQUEST's key, with the RESPONSE's question
       let cache' :=
         match m.q with
-        | some mq => if m.resp && m.rcode == 0 && !m.ttl0 then insert cache c.key (Entry.mk mq.canon m.ans) else cache
+        | some mq =>
+          -- only class-IN answers are kept (`NormalizeAndCacheDnsResp_`, fix 4150de7)
+          if m.resp && m.rcode == 0 && !m.ttl0 && mq.qclass == classIN then insert cache c.key (Entry.mk mq.canon m.ans) else cache
         | none => cache
       (.ok m', cache')
 
@@ -261,7 +276,7 @@ def step (cfg : Cfg) (s : St) : Act → St
       match c.route with
       | .reject =>
         -- RemoveDnsRespCacheFamily(baseKey) + sendRejectWithResponseWriter_
-        let s := { s with cache := s.cache.filter fun p => !(p.1.name == c.q.name && p.1.qtype == c.q.qtype) }
+        let s := { s with cache := s.cache.filter fun p => !(p.1.ident == c.q.ident) }
         (s.emit i (.wrote (ownReply c 0 false))).setPc i .done
       | .forward =>
         match lookup s.cache c.key with
